@@ -28,6 +28,8 @@ func docCase(c Case, e *env) (*docGen, string, string) {
 	switch e.prop {
 	case "C05":
 		g.noise = true
+	case "C09":
+		g.noTitle = c.ID%3 == 0
 	case "C08":
 		// C08 pages carry no markers of other mechanisms; place rotates as usual
 	}
@@ -135,6 +137,9 @@ func countDoc(src *Src, obs *Obs) {
 	}
 	if obs.Census["elements"] >= 3 {
 		count("out_elements")
+	}
+	if obs.OnlyTxt && obs.NTitle == 0 && len(obs.Txt) > 0 {
+		count("wordcount_clause_applies")
 	}
 	for _, r := range obs.Htm {
 		if r.N != 0 && r.N <= len(src.Nodes) && src.Nodes[r.N-1].Chain > 1 {
